@@ -97,7 +97,8 @@ class C17(Check):
     rule = ("cases: (a) every first-byte value 0..255 x {zero, all-one, positional, random} low bytes decoded by py7zr and the "
             "spec decoder; (b) all values below 2^16 (quick) / 2^22 (thorough) in chunks, 2^k-1/2^k/2^k+1, random 64-bit values "
             "with every legal (also non-minimal) encoding length; (c) boolean vectors of every length 0..130 x patterns x "
-            "all-defined shortcut; (d) names, FILETIMEs, UINT32 lists; (e) whole headers built by the reference writer with "
+            "all-defined shortcut; (d) names (every BMP scalar value and a stride through the astral planes as only/first/middle/last character, "
+            "plus generated names), FILETIMEs, UINT32 lists; (e) whole headers built by the reference writer with "
             "partially defined vectors and extreme numbers, read by py7zr, rewritten by py7zr (raw and encoded) and re-read by "
             "the reference reader. Non-trivial: NUMBER >= 2^7 or non-minimal, vector length not a multiple of 8 or partially "
             "defined, name with a non-ASCII code point, header with >=1 undefined entry or >=9 files. distinct = hash of the case.")
@@ -125,6 +126,15 @@ class C17(Check):
             i += 1
             if env.mine(i):
                 yield {"k": "pow2", "bit": kbit}
+        # (d) every BMP scalar value (and a stride through the astral planes) at each position of a name
+        for lo in range(0, 0x10000, 0x800):
+            i += 1
+            if env.mine(i):
+                yield {"k": "cprange", "lo": lo, "hi": lo + 0x800}
+        for lo in range(0x10000, 0x110000, 0x10000):
+            i += 1
+            if env.mine(i):
+                yield {"k": "cprange", "lo": lo, "hi": lo + 0x10000, "step": 0x101 if env.quick else 0x11}
         # (c) boolean vectors
         for n in range(131):
             i += 1
@@ -231,6 +241,33 @@ class C17(Check):
                     got = "raises " + type(e).__name__
                 if got != s:
                     out.violate({"kind": "name-roundtrip", "src": tag, "long": len(s) > 1000}, observed=repr(got)[:200], expected=repr(s)[:200])
+        elif k == "cprange":
+            # every scalar value of the range as first, middle, last and only character of a name
+            out.nontrivial = True
+            out.descriptor = ("cprange", case["lo"])
+            out.label("name:codepoint-sweep")
+            n = 0
+            for cp in range(case["lo"], case["hi"], case.get("step", 1)):
+                if 0xD800 <= cp <= 0xDFFF or cp == 0:
+                    continue
+                ch = chr(cp)
+                for s in (ch, ch + "a", "a" + ch + "b", "a" + ch):
+                    n += 1
+                    ref = RC.enc_name(s)
+                    bio = io.BytesIO()
+                    ai.write_utf16(bio, s)
+                    if bio.getvalue() != ref:
+                        out.violate({"kind": "name-write-differs-from-spec", "sweep": True}, observed={"cp": hex(cp), "got": bio.getvalue().hex()}, expected=ref.hex())
+                        break
+                    try:
+                        got = ai.read_utf16(io.BytesIO(ref + b"zz"))
+                    except Exception as e:
+                        got = "raises " + type(e).__name__
+                    if got != s:
+                        out.violate({"kind": "name-roundtrip", "sweep": True, "position": ["only", "first", "middle", "last"][(n - 1) % 4]},
+                                    observed={"cp": hex(cp), "got": repr(got)[:60]}, expected=repr(s))
+                        break
+            out.count("names_swept", n)
         elif k == "filetime":
             v = case["v"]
             out.nontrivial = v > 0
